@@ -52,7 +52,7 @@ class Engine:
         self.external_effects = {}
         self.witness_fields = {}
         self.field_types = {'_children': 'dict', '_metadata': 'dict', '_eval_stack': 'list', '_eval_cache': 'dict', '_eval_cache_id': 'dict', 'stages': 'list',
-                            '_eval_symbols': 'dict', '_removed_nodes': 'dict'}
+                            '_eval_symbols': 'dict', '_removed_nodes': 'dict', 'state_generators': 'list'}
         self.field_hints = {'_func': ['function']}
 
     # ------------------------------------------------------------------ classes
